@@ -337,6 +337,10 @@ func (s *verifC09Scenario) onConnect(c *Client) {
 						cb(MapPublishReply{Result: &MapUpdateResult{}}, nil)
 						return
 					}
+					if res == "nores" {
+						cb(MapPublishReply{Key: "k"}, nil) // the library publishes itself (Node.MapPublish)
+						return
+					}
 					cb(MapPublishReply{Key: "k", Result: &MapUpdateResult{}}, nil)
 				})
 			})
@@ -352,6 +356,10 @@ func (s *verifC09Scenario) onConnect(c *Client) {
 					}
 					if res == "nokey" {
 						cb(MapRemoveReply{Result: &MapUpdateResult{}}, nil)
+						return
+					}
+					if res == "nores" {
+						cb(MapRemoveReply{Key: "k"}, nil)
 						return
 					}
 					cb(MapRemoveReply{Key: "k", Result: &MapUpdateResult{}}, nil)
@@ -396,6 +404,10 @@ func (s *verifC09Scenario) onConnect(c *Client) {
 				s.run(verifC09Script(e.Channel), func(res string) {
 					if err, ok := verifC09Err(res); ok {
 						cb(HistoryReply{}, err)
+						return
+					}
+					if res == "nores" {
+						cb(HistoryReply{}, nil) // the library reads the history itself (Node.History)
 						return
 					}
 					cb(HistoryReply{Result: &HistoryResult{}}, nil)
@@ -512,6 +524,11 @@ func verifC09Command(kv map[string]string) *protocol.Command {
 				c = withScript(c)
 			}
 			cmd.History = &protocol.HistoryRequest{Channel: c}
+			if strings.HasSuffix(script, ":nores") {
+				// a position in an epoch the broker never had
+				cmd.History.Since = &protocol.StreamPosition{Offset: 3, Epoch: "stale"}
+				cmd.History.Limit = 10
+			}
 		case "rpc":
 			cmd.Rpc = &protocol.RPCRequest{Method: withScript("m")}
 		case "send":
